@@ -93,7 +93,10 @@ def run(tier, seed):
             res["discharged"] += 1
     # 1. verify + compile the oracle with Verus
     oracle = os.path.join(gen, "c12_oracle")
-    r = subprocess.run(["verus", os.path.join(ROOT, "spec", "c12_oracle.rs"), "--triggers-mode", "silent", "--compile", "-o", oracle],
+    src = open(os.path.join(ROOT, "spec", "c12_oracle_main.rs")).read().replace("//@TOKEN@", open(os.path.join(ROOT, "spec", "token.rs")).read())
+    with open(os.path.join(gen, "c12_oracle.rs"), "w") as f:
+        f.write(src)
+    r = subprocess.run(["verus", os.path.join(gen, "c12_oracle.rs"), "--triggers-mode", "silent", "--compile", "-o", oracle],
                        capture_output=True, text=True, cwd=gen)
     if "0 errors" not in r.stdout or not os.path.exists(oracle):
         res["undecided"] = "oracle did not verify/compile: " + (r.stdout + r.stderr)[-400:]
